@@ -155,6 +155,13 @@ def check_visitor(ctx: Ctx, env, A: SqlAnalysis, langs, done: Dict[str, Dict[str
                 ctx.check(w is None, "R1.raw-token-class", f"{vs}|{k}.{o.attr}",
                           f"{k}.{o.attr} is emitted raw, but the lexer accepts the spelling {w!r} which is not a SQL "
                           f"{'numeric literal' if k != 'Boolean' else 'boolean keyword'}", t.where, f"x eq {w}" if w else None)
+        # no Python repr of AST nodes / node lists in the output
+        for tok in st.toks:
+            pieces = [tok.value] if tok.kind == "raw" else [c for c in (tok.value or []) if not isinstance(c, str)] if tok.kind in ("string", "qident") else []
+            for piece in pieces:
+                if piece[0] == "dyn" and isinstance(piece[1], (NodeV,)) or (piece[0] == "dyn" and type(piece[1]).__name__ in ("ListV", "NewNode", "MapV")):
+                    ctx.fail("R1.no-node-repr", key, f"template `{_clip(txt)}` formats an AST node (or a list of nodes) with str(): the Python repr of the "
+                             "syntax tree is spliced into the SQL instead of a translation", t.where, _func_witness(t))
         # R4 exactly once / in order
         _exactly_once(ctx, A, t, key)
         # R5 alias
